@@ -36,6 +36,9 @@ ALLOW_BLOCK = {
     'svt_av1_enc_deinit_handle': {'svt_destroy_thread'},      # dctor chain of the handle (thread handles)
     'svt_av1_dec_deinit': {'svt_destroy_thread'},             # joins decoder workers
     'svt_av1_enc_init_handle': {'svt_destroy_thread'},        # error unwinding runs the handle dctor
+    # EB_NEW's failure unwinding runs destructors; destructor slots of pooled objects are resolved as "any installed
+    # dctor", the only thread-joining one being the handle's own (i.e. teardown after the threads' FIFOs are shut down)
+    'svt_av1_enc_init': {'svt_destroy_thread'},
     # decoder: svt_av1_dec_frame is the decode call itself; in multi-thread mode it hands tiles to its own worker
     # threads and waits for them (finite work per frame), and on a sequence change frees/rebuilds the worker set
     # through the memory map.  deinit (also run by init_handle's failure path) waits for the workers to exit.
